@@ -1,3 +1,4 @@
 pub mod atoms;
 pub mod bytes;
+pub mod programs;
 pub mod trees;
